@@ -434,7 +434,12 @@ def impl_obs(s, v, st=None, kexinfo=None):
     o = dict(kex="?", certified="?", ske="?")
     if kexinfo:
         o.update(kexinfo)
-    o.update(certKinds=st["certKinds"], cipher=ciph, keyLen=kl, mode=mode, ivLen=12 if v >= (3, 4) else il,
+    kinds = st["certKinds"]
+    if o.get("certified") is False:
+        # no Certificate is sent: only "admitted without a chain" matters; a chain the server also holds
+        # is not used on the wire (e.g. SRP_SHA suites on a server that has verifierDB and a certificate)
+        kinds = [k for k in kinds if k == "none"]
+    o.update(certKinds=kinds, cipher=ciph, keyLen=kl, mode=mode, ivLen=12 if v >= (3, 4) else il,
              mac=dig, macLen=ml, tagLen=obj[4] if obj else 0, prf=impl_prf_kind(v, s),
              prfKeyUpdate=(impl_ku_kind(s) or "?").split(" ")[0] if v >= (3, 4) else None,
              sessCipher=st["ccn"], sessMac=st["cmn"], connCipher=conn)
@@ -1036,6 +1041,52 @@ def flight_types(log):
     return types
 
 
+def flight_messages(log):
+    """[(type, body)] of the handshake messages of a plaintext flight"""
+    i, hs = 0, bytearray()
+    while i + 5 <= len(log):
+        t, ln = log[i], (log[i + 3] << 8) | log[i + 4]
+        if t != 22:
+            break
+        hs += log[i + 5:i + 5 + ln]
+        i += 5 + ln
+    out, j = [], 0
+    while j + 4 <= len(hs):
+        n = (hs[j + 1] << 16) | (hs[j + 2] << 8) | hs[j + 3]
+        out.append((hs[j], bytes(hs[j + 4:j + 4 + n])))
+        j += 4 + n
+    return out
+
+
+def ske_signed_on_wire(log, kex):
+    """does the ServerKeyExchange of this flight carry anything after its parameter block (= a signature)?
+    None when there is no ServerKeyExchange or the block does not parse"""
+    for t, body in flight_messages(log):
+        if t != 12:
+            continue
+        try:
+            p = 0
+            if kex == "srp":
+                for w in (2, 2, 1, 2):
+                    n = int.from_bytes(body[p:p + w], "big")
+                    p += w + n
+            elif kex == "ffdhe":
+                for w in (2, 2, 2):
+                    n = int.from_bytes(body[p:p + w], "big")
+                    p += w + n
+            elif kex == "ecdhe":
+                p = 3
+                p += 1 + body[p]
+            else:
+                return None
+            if p > len(body):
+                return None
+            return p < len(body)
+        except Exception:
+            return None
+    return None
+
+
 def app_records(log, start):
     """[(type, length)] of records appended to a pipe log after offset start"""
     out, i = [], start
@@ -1064,7 +1115,7 @@ def expected_record_len(sem, v, n, etm):
     return iv + (body + bs - 1) // bs * bs
 
 
-def live_one(ctx, s, v, name, sem, etm=False):
+def live_one(ctx, s, v, name, sem, etm=False, spare_cert=None):
     """handshake forced to suite s in version v between two in-memory TLSConnections; returns
     (status, observations) — status 'ok' | 'skipped:<why>' | 'failed:<why>'"""
     from tlslite.tlsconnection import TLSConnection
@@ -1096,6 +1147,16 @@ def live_one(ctx, s, v, name, sem, etm=False):
     cred = creds(kind) if kind else None
     if kind and cred is None:
         return "skipped:no-%s-credentials" % kind, None
+    sst = st
+    if spare_cert and sem["kex"] == "srp" and kind is None:
+        # the server also holds a certificate (and would do SRP with certificate, too); the client offers
+        # only the SRP suites without server authentication: the chain must stay unused on the wire
+        cred = creds(spare_cert)
+        if cred is None:
+            return "skipped:no-%s-credentials" % spare_cert, None
+        import copy
+        sst = copy.copy(st)
+        sst.keyExchangeNames = ["srp_sha", "srp_sha_rsa"]
     a, b = Pipe(), Pipe()          # a: client -> server, b: server -> client
     c = TLSConnection(MemSock(b, a))
     srv = TLSConnection(MemSock(a, b))
@@ -1103,7 +1164,7 @@ def live_one(ctx, s, v, name, sem, etm=False):
         try:
             if sem["kex"] == "srp":
                 gc = c.handshakeClientSRP("user", "password", settings=st, async_=True)
-                gs = srv.handshakeServerAsync(verifierDB=verifier_db(), settings=st,
+                gs = srv.handshakeServerAsync(verifierDB=verifier_db(), settings=sst,
                                               **(dict(certChain=cred[0], privateKey=cred[1]) if cred else {}))
             elif sem["auth"] == "anon":
                 gc = c.handshakeClientAnonymous(settings=st, async_=True)
@@ -1162,6 +1223,7 @@ def live_one(ctx, s, v, name, sem, etm=False):
             obs["etm"] = bool(c._recordLayer._writeState.encryptThenMAC), bool(srv._recordLayer._writeState.encryptThenMAC)
             obs["events"] = list(rec.events)
             obs["server_flight"] = flight_types(b.log)
+            obs["ske_signed"] = ske_signed_on_wire(b.log, sem["kex"])
             return "ok", obs
         except Exception as e:
             return "failed:%s:%s" % (exc_name(e), str(e)[:80]), None
@@ -1325,6 +1387,9 @@ def check_live(ctx, s, v, name, sem, obs):
             bad("certificate-message", fl, "Certificate %s" % ("expected" if want["certified"] else "not expected"))
         if (12 in fl) != want["ske"]:
             bad("server-key-exchange-message", fl, "ServerKeyExchange %s" % ("expected" if want["ske"] else "not expected"))
+        # the parameters are signed exactly when the name denotes an authenticating key
+        if want["ske"] and obs.get("ske_signed") != want["certified"]:
+            bad("server-key-exchange-signature", obs.get("ske_signed"), want["certified"])
     # keys installed: each side builds client+server pending states; final state = last calls
     for side in ROLES:
         cs = [e for e in ev if e[0] == side and e[1] == "cipher"]
@@ -1401,6 +1466,16 @@ def live_part(ctx, neg, budget_s):
             else:
                 ctx.disagree("live-handshake", {"suite": s, "name": name, "version": list(v), "etm": True},
                              "handshake completes", st2)
+        if sem["kex"] == "srp" and sem["auth"] == "srp":
+            for spare in ("rsa", "ecdsa"):
+                st3, obs3 = live_one(ctx, s, v, name, sem, spare_cert=spare)
+                ctx.count("live-srp-with-unused-%s-cert:%s" % (spare, st3.split(":")[0]))
+                if st3 == "ok":
+                    ctx.case(key=("live-spare", s, v, spare), sample=None)
+                    check_live(ctx, s, v, name, sem, obs3)
+                elif not st3.startswith("skipped"):
+                    ctx.disagree("live-handshake", {"suite": s, "name": name, "version": list(v), "server_also_holds": spare},
+                                 "handshake completes", st3)
         status, obs = live_one(ctx, s, v, name, sem)
         ctx.count("live:" + status.split(":")[0])
         if status == "ok":
@@ -1631,7 +1706,9 @@ def server_guard_case(v, s, sem):
             cred = {"rsa": "rsa", "ecdsa": "ecdsa", "dss": "dsa"}.get(sem["auth"], "rsa")
     if cred and creds(cred) is None:
         return "error:no-credentials"
-    c, gc, a, b = start_client(kind, full_settings(v, v))
+    # (SRP and anonymous clients do not speak TLS 1.3: take a certificate client's hello there, the suite
+    # list is replaced anyway)
+    c, gc, a, b = start_client(kind if v <= (3, 3) else "cert", full_settings(v, v))
     r = step_until_blocked(gc, b)
     ch = first_handshake_msg(a.log, 1)
     if r != "blocked" or ch is None:
